@@ -92,7 +92,7 @@ pub fn run(run: &Run) {
         "Generator: (a) every Unicode scalar value c as the one-character string c and as a c a (interior), and preceded by a combining-friendly base \
          (a c U+0301), and behind 51 characters of padding, for all four profiles; (b) proptest valid-biased strings heavy in cased characters and composing sequences per profile. Oracle: \
          for every Ok(e): no code point of e is DISALLOWED/UNASSIGNED by my RFC 8264 recomputation over UCD 6.3.0 nor by the class's own \
-         get_value_from_char; enforce(e) is Ok(e) or an error. Non-trivial: enforce accepted and changed the string; distinct = distinct (profile,input). Plus the deterministic long-input / call-order batteries of DESIGN.md 8.1 that apply to this property (alignment sweeps 0..72 and around 128..65536 bytes, runs and exact counts, sandwiches and multi-megabyte inputs, exhaustive pair sets, plane/byte aliases, hash-colliding pairs back to back, owned arguments with spare capacity); each battery is a finite list enumerated completely and appears as its own section in 'sections'.",
+         get_value_from_char; enforce(e) is Ok(e) or an error. Non-trivial: enforce accepted and changed the string; distinct = distinct (profile,input). Plus the deterministic long-input / call-order batteries of DESIGN.md 8.1 and 8.2 that apply to this property (extreme scale, mark neighbours, distinct runs with repeats, environment children, thread lifetime, concurrent distinct inputs; alignment sweeps 0..72 and around 128..65536 bytes, runs and exact counts, sandwiches and multi-megabyte inputs, exhaustive pair sets, plane/byte aliases, hash-colliding pairs back to back, owned arguments with spare capacity); each battery is a finite list enumerated completely and appears as its own section in 'sections'.",
     );
     run.assume("K2 (Cherokee letters U+13A0..U+13F4 are lowercased by UsernameCaseMapped to code points unassigned in Unicode 6.3.0) is a listed known finding, matched only for that profile, that source range and an UNASSIGNED target");
     let pad_a = crate::gens::pad(4, 5); // 17 x "abé"
